@@ -462,6 +462,7 @@ class TDMProgram(Program):
         self._unrolled_shots = shots
 
         if self.space_unrolled_circuit is not None:
+            self.locked = _locked
             raise ValueError(
                 "Program is space-unrolled and cannot be unrolled. Must be rolled (by calling the"
                 "'roll()' method) before unrolling."
@@ -501,6 +502,7 @@ class TDMProgram(Program):
             self.init_num_subsystems += self._num_added_subsystems
 
         if self.unrolled_circuit is not None:
+            self.locked = _locked
             raise ValueError(
                 "Program is unrolled and cannot be space-unrolled. Must be rolled (by calling the"
                 "`roll()` method) before space-unrolling."
